@@ -63,8 +63,9 @@ def doctype(lang):
 
 
 class LangGen:
-    def __init__(self, tj, lang, rng):
+    def __init__(self, tj, lang, rng, token_root=False):
         self.tj, self.lang, self.rng = tj, lang, rng
+        self.token_root = token_root
         T = tj["tables"]
         self.tags = T[str(lang["tags"])]["rows"] if lang["tags"] >= 0 else []
         self.all_tags = self.tags
@@ -115,6 +116,8 @@ class LangGen:
             if t[0] == self.lang["root"]:
                 r = t
                 break
+        if r is None and self.token_root and self.tags:
+            r = self.tags[0]         # the language's root name is not in its tag table (AirSync): use a tokenised root
         if r is None:
             return E(self.lang["root"], None, None, kids)
         return self.elt(r, kids)
@@ -165,7 +168,9 @@ class LangGen:
         base = val or ""
         if self.lid == 1301 and name in ("created", "si-expires") or self.lid == 1701 and name == "timestamp":
             return self.rng.choice(DATETIMES)
-        r = self.rng.below(9) if forced is None else forced
+        r = self.rng.below(10) if forced is None else forced
+        if r == 9:
+            return base + 'say "hi" & <go> \'now\''                        # characters the XML generator must escape
         if r == 0:
             return base if base else "v"
         if r == 1:
@@ -198,6 +203,8 @@ class LangGen:
             plan.append((row, None))       # a random form
             if self.vals:
                 plan.append((row, 6))
+        for row in rows[:3]:
+            plan.append((row, 9))
         for i, (row, forced) in enumerate(plan):
             if cur is None or row[0] in used or len(cur.attrs) >= 3:
                 if cur is not None:
@@ -249,11 +256,11 @@ class LangGen:
         return [self.root(kids)]
 
 
-def documents(tj, rng, quick=True):
+def documents(tj, rng, quick=True, token_root=False):
     """yields (lang_id, kind, xml_bytes, d7_shape)"""
     out = []
     for lang in tj["langs"]:
-        g = LangGen(tj, lang, rng)
+        g = LangGen(tj, lang, rng, token_root)
         pool = ["shared text one", "shared text one", "second shared text", "tiny", "x y", "shared_attr_value"]
         hdr = doctype(lang)
         per = 40
